@@ -106,6 +106,8 @@ func (e *Engine) resetPath(dec []bool) {
 	e.curFn = e.curFn[:0]
 	e.outputs = 0
 	e.failSeq = 0
+	e.tracking = false
+	e.writes = 0
 	e.realSeq = 0
 }
 
@@ -191,7 +193,8 @@ func (e *Engine) runPath(dec []bool, wantSample bool) (res pathResult, alts [][]
 	switch x := out.(type) {
 	case Infeasible:
 		e.solver.send("(pop 1)")
-		res.fails = nil
+		// failures recorded earlier (known findings) were feasible when recorded: keep them
+		res.feasible = len(res.fails) > 0
 		return
 	case stopPath:
 		e.solver.send("(pop 1)")
